@@ -31,6 +31,7 @@ import (
 	"github.com/alicebob/miniredis/v2"
 
 	cconst "tunnox-core/internal/cloud/constants"
+	"tunnox-core/internal/core/storage/hybrid"
 	"tunnox-core/internal/core/storage/memory"
 	rstore "tunnox-core/internal/core/storage/redis"
 	"tunnox-core/internal/core/storage/types"
@@ -86,6 +87,10 @@ type caseIn struct {
 	Fill    int      `json:"fill"`    // sweep: number of expired entries that make the sweep long
 	Ticker  bool     `json:"ticker"`  // sweep: the StartCleanup goroutine sweeps instead of an explicit CleanupExpired call
 	Setup   []opIn   `json:"setup"`   // upgrade: calls that plant the key (lifetime 2 ms), after which the harness waits until it has expired
+	Backend string   `json:"backend"` // iso: "mem" | "redis" | "hybrid"
+	Name    string   `json:"name"`    // iso: scenario name (part of the failure key)
+	MutIn   bool     `json:"mutin"`   // iso: overwrite every []any handed in, after the call returned
+	MutRet  bool     `json:"mutret"`  // iso: overwrite every composite value returned
 }
 
 type obs []interface{}
@@ -106,8 +111,9 @@ type caseOut struct {
 	PropMsg  string   `json:"prop_msg,omitempty"`
 	PropKey  string   `json:"prop_key,omitempty"`
 	FailAt   int      `json:"fail_at"`
-	ShapeEnd int      `json:"shape_end"`       // redis: index of the operation after which the history left the compared shape (-1: never)
-	Order    string   `json:"order,omitempty"` // upgrade: the sequential order that explains the answers: "rw" (reader first) or "wr"
+	ShapeEnd int      `json:"shape_end"`         // redis: index of the operation after which the history left the compared shape (-1: never)
+	Order    string   `json:"order,omitempty"`   // upgrade: the sequential order that explains the answers: "rw" (reader first) or "wr"
+	ObsEnd   []obs    `json:"obs_end,omitempty"` // iso / mem: the answers re-read from the retained values at the end of the history
 }
 
 // JSON value -> Go value handed to the storage: string, int64, nil, []any of those
@@ -183,7 +189,27 @@ func errObs(err error) obs {
 func ms(d int64, scale int64) time.Duration { return time.Duration(d*scale) * time.Millisecond }
 
 // one call on the real storage
-func apply(st kv, o opIn, scale int64) (r obs) {
+// what a call handed in and got out, for the value-isolation checks (mode iso, and retained answers in mem)
+type ioRec struct {
+	ret    any // the value a read returned, as returned (not projected)
+	hasRet bool
+	in     []any // the []any the harness handed to Set / SetList / SetNX / CompareAndSwap
+}
+
+func apply(st kv, o opIn, scale int64) obs { return applyEx(st, o, scale, nil) }
+
+func applyEx(st kv, o opIn, scale int64, io *ioRec) (r obs) {
+	keepIn := func(v any) any {
+		if l, ok := v.([]any); ok && io != nil {
+			io.in = l
+		}
+		return v
+	}
+	keepRet := func(v any) {
+		if io != nil {
+			io.ret, io.hasRet = v, true
+		}
+	}
 	defer func() {
 		if p := recover(); p != nil {
 			r = obs{"panic", fmt.Sprint(p)}
@@ -191,12 +217,13 @@ func apply(st kv, o opIn, scale int64) (r obs) {
 	}()
 	switch o.Op {
 	case "set":
-		return errObs(st.Set(o.K, goVal(o.V), ms(o.TTL, scale)))
+		return errObs(st.Set(o.K, keepIn(goVal(o.V)), ms(o.TTL, scale)))
 	case "get":
 		v, err := st.Get(o.K)
 		if err != nil {
 			return errObs(err)
 		}
+		keepRet(v)
 		return obs{"v", proj(v)}
 	case "del":
 		return errObs(st.Delete(o.K))
@@ -207,7 +234,7 @@ func apply(st kv, o opIn, scale int64) (r obs) {
 		}
 		return obs{"b", b}
 	case "setlist":
-		return errObs(st.SetList(o.K, goVal(o.V).([]any), ms(o.TTL, scale)))
+		return errObs(st.SetList(o.K, keepIn(goVal(o.V)).([]any), ms(o.TTL, scale)))
 	case "getlist":
 		v, err := st.GetList(o.K)
 		if err != nil {
@@ -216,6 +243,7 @@ func apply(st kv, o opIn, scale int64) (r obs) {
 		if v == nil {
 			v = []any{}
 		}
+		keepRet(v)
 		return obs{"v", proj(v)}
 	case "append":
 		return errObs(st.AppendToList(o.K, goVal(o.V)))
@@ -228,6 +256,7 @@ func apply(st kv, o opIn, scale int64) (r obs) {
 		if err != nil {
 			return errObs(err)
 		}
+		keepRet(v)
 		return obs{"v", proj(v)}
 	case "getallhash":
 		v, err := st.GetAllHash(o.K)
@@ -237,6 +266,7 @@ func apply(st kv, o opIn, scale int64) (r obs) {
 		if v == nil {
 			v = map[string]any{}
 		}
+		keepRet(v)
 		return obs{"v", proj(v)}
 	case "delhash":
 		return errObs(st.DeleteHash(o.K, o.F))
@@ -258,13 +288,13 @@ func apply(st kv, o opIn, scale int64) (r obs) {
 		}
 		return obs{"d", int64(d/time.Millisecond) / scale}
 	case "setnx":
-		b, err := st.SetNX(o.K, goVal(o.V), ms(o.TTL, scale))
+		b, err := st.SetNX(o.K, keepIn(goVal(o.V)), ms(o.TTL, scale))
 		if err != nil {
 			return errObs(err)
 		}
 		return obs{"b", b}
 	case "cas":
-		b, err := st.CompareAndSwap(o.K, goVal(o.Old), goVal(o.V), ms(o.TTL, scale))
+		b, err := st.CompareAndSwap(o.K, goVal(o.Old), keepIn(goVal(o.V)), ms(o.TTL, scale))
 		if err != nil {
 			return errObs(err)
 		}
@@ -371,6 +401,48 @@ func (r *ref) step0(o opIn) obs {
 	case "setlist":
 		r.m[o.K] = &rent{v: goVal(o.V), exp: r.deadline(o.TTL)}
 		return obs{"ok"}
+	case "copylist": // SetList(k, GetList(src), ttl): the destination gets a COPY of the source's members
+		src := r.m[o.F]
+		var got obs
+		var members []any
+		switch {
+		case src == nil && !r.emptyAbsent:
+			return obs{"copy", obs{"nf"}}
+		case src == nil:
+			got = obs{"v", []interface{}{}}
+		default:
+			l, ok := src.v.([]any)
+			if !ok {
+				return obs{"copy", obs{"it"}}
+			}
+			members = append([]any(nil), l...)
+			got = obs{"v", proj(l)}
+		}
+		if members == nil {
+			members = []any{}
+		}
+		r.m[o.K] = &rent{v: members, exp: r.deadline(o.TTL)}
+		if r.emptyAbsent && len(members) == 0 {
+			delete(r.m, o.K)
+		}
+		return obs{"copy", got, obs{"ok"}}
+	case "drain": // for _, x := range GetList(k) { RemoveFromList(k, x) }
+		if e == nil && !r.emptyAbsent {
+			return obs{"drain", obs{"nf"}}
+		}
+		if e == nil {
+			return obs{"drain", obs{"v", []interface{}{}}}
+		}
+		l, ok := e.v.([]any)
+		if !ok {
+			return obs{"drain", obs{"it"}}
+		}
+		res := obs{"drain", obs{"v", proj(l)}}
+		for range l {
+			res = append(res, obs{"ok"})
+		}
+		e.v = []any{}
+		return res
 	case "get":
 		if e == nil {
 			return obs{"nf"}
@@ -582,6 +654,7 @@ func runMem(c caseIn) *caseOut {
 	start := time.Now()
 	var nominal int64 // model ms since start
 	tainted := false
+	var kept []retained
 	for i, o := range c.Ops {
 		if o.Op == "tick" {
 			nominal += o.D
@@ -598,7 +671,11 @@ func runMem(c caseIn) *caseOut {
 		if !tainted {
 			before = r.clone()
 		}
-		got := apply(st, o, scale)
+		io := &ioRec{}
+		got := applyEx(st, o, scale, io)
+		if io.hasRet {
+			kept = append(kept, retained{i, o.Op, kindOf(io.ret), io.ret, canon(obs{"v", proj(io.ret)})})
+		}
 		late := float64(time.Since(start)-ms(nominal, scale)) / float64(time.Millisecond) / float64(scale)
 		if late > out.LateMs {
 			out.LateMs = late
@@ -606,6 +683,16 @@ func runMem(c caseIn) *caseOut {
 		want := r.step(o)
 		out.Obs = append(out.Obs, got)
 		out.Ref = append(out.Ref, want)
+		// value isolation: no later call changes an answer already returned (C13_answers_never_change_later)
+		for _, k := range kept {
+			if now := canon(obs{"v", proj(k.val)}); !tainted && now != k.snap {
+				tainted = true
+				out.PropOK = false
+				out.FailAt = i
+				out.PropKey = "mem:returned-answer-changed:" + k.op + "-" + k.kind + ":after:" + o.Op
+				out.PropMsg = fmt.Sprintf("memory.Storage: the answer %s returned by call #%d %s(%s) turned into %s after call #%d %s(%s)", k.snap, k.at, k.op, c.Ops[k.at].K, now, i, o.Op, o.K)
+			}
+		}
 		if !tainted && !sameObs(got, want, c.Tol) {
 			// later answers are not judged: the two states may have drifted apart
 			tainted = true
@@ -614,6 +701,10 @@ func runMem(c caseIn) *caseOut {
 			out.PropKey = classify("mem", o, before)
 			out.PropMsg = fmt.Sprintf("memory.Storage op #%d %s(%s) answered %s, a sequential TTL map answers %s", i, o.Op, o.K, canon(got), canon(want))
 		}
+	}
+	out.ObsEnd = append([]obs(nil), out.Obs...)
+	for _, k := range kept {
+		out.ObsEnd[k.at] = obs{"v", proj(k.val)}
 	}
 	return out
 }
@@ -1299,6 +1390,168 @@ func runUpgrade(c caseIn) *caseOut {
 	return out
 }
 
+// ---------------------------------------------------------------------------------------------
+// iso: value isolation.  The Spec's values are immutable (Properties/C13.v C13_answers_never_change_later,
+// C13_other_keys_untouched): an answer is a function of the store at the time of the call, and what a caller does with a
+// slice or map it handed in or got out afterwards is none of the store's business.  On every backend:
+//   (a) every value a call RETURNED is kept as returned and re-compared with its snapshot after every later call;
+//   (b) every []any the harness HANDED IN is overwritten by the harness once the call has returned (mutin);
+//   (b') optionally every composite RETURNED is overwritten by the harness instead of being kept (mutret);
+//   (c) copylist: SetList(k2, GetList(k1)) with the very slice GetList returned, then writes to either key;
+//   (d) drain: for _, x := range GetList(k) { RemoveFromList(k, x) };
+// all judged by the ordinary predicate (every answer equals the reference map's) plus (a).
+// ---------------------------------------------------------------------------------------------
+
+type retained struct {
+	at   int
+	op   string
+	kind string
+	val  any
+	snap string
+}
+
+func kindOf(v any) string {
+	switch v.(type) {
+	case []any:
+		return "list"
+	case map[string]any:
+		return "hash"
+	}
+	return "scalar"
+}
+
+func scribble(v any, mark string) {
+	switch x := v.(type) {
+	case []any:
+		for i := range x {
+			x[i] = mark
+		}
+	case map[string]any:
+		for k := range x {
+			x[k] = mark
+		}
+		x["zz-"+mark] = mark
+	}
+}
+
+func newHybrid() (kv, func()) {
+	ctx := context.Background()
+	cache := memory.New(ctx)
+	h := hybrid.New(ctx, cache, nil, nil)
+	return h, func() { h.Close(); cache.Close() }
+}
+
+func runIso(c caseIn) *caseOut {
+	out := &caseOut{PropOK: true, FailAt: -1, ShapeEnd: -1}
+	var st kv
+	r := newRef(defaultTTLms())
+	isRedis := false
+	switch c.Backend {
+	case "redis":
+		side := newRedisSide(100)
+		defer side.close()
+		st, r, isRedis = side.st, side.rr, true
+	case "hybrid":
+		h, done := newHybrid()
+		defer done()
+		st = h
+	default:
+		m := memory.New(context.Background())
+		defer m.Close()
+		st = m
+	}
+	scale := int64(1)
+	if isRedis {
+		scale = 100
+	}
+	pj := func(op string, o obs) obs {
+		if !isRedis {
+			return o
+		}
+		if len(o) > 0 && (o[0] == "copy" || o[0] == "drain") {
+			res := obs{o[0]}
+			sub := "getlist"
+			for _, x := range o[1:] {
+				res = append(res, projRedis(sub, x.(obs)))
+				sub = "setlist"
+			}
+			return res
+		}
+		return projRedis(op, o)
+	}
+	fail := func(i int, key, msg string) {
+		if out.PropOK {
+			out.PropOK, out.FailAt, out.PropKey, out.PropMsg = false, i, key, msg
+		}
+	}
+	var kept []retained
+	keep := func(i int, op string, io *ioRec) {
+		if !io.hasRet {
+			return
+		}
+		if c.MutRet && kindOf(io.ret) != "scalar" {
+			scribble(io.ret, "MUTR") // the caller overwrites what it got: the store must not notice
+			return
+		}
+		kept = append(kept, retained{i, op, kindOf(io.ret), io.ret, canon(pj(op, obs{"v", proj(io.ret)}))})
+	}
+	for i, o := range c.Ops {
+		io := &ioRec{}
+		var got obs
+		switch o.Op {
+		case "copylist":
+			g := applyEx(st, opIn{Op: "getlist", K: o.F}, scale, io)
+			got = obs{"copy", g}
+			if io.hasRet {
+				l := io.ret.([]any)
+				keep(i, "getlist", io)
+				got = append(got, errObs(st.SetList(o.K, l, ms(o.TTL, scale)))) // the very slice GetList returned
+			}
+		case "drain":
+			g := applyEx(st, opIn{Op: "getlist", K: o.K}, scale, io)
+			got = obs{"drain", g}
+			if io.hasRet {
+				l := io.ret.([]any)
+				for _, x := range l { // ranges over the slice GetList returned while removing
+					got = append(got, errObs(st.RemoveFromList(o.K, x)))
+				}
+			}
+		default:
+			got = applyEx(st, o, scale, io)
+			keep(i, o.Op, io)
+			if c.MutIn && io.in != nil {
+				scribble(io.in, "MUTA") // the caller reuses the slice it handed in: the store must not notice
+			}
+		}
+		got = pj(o.Op, got)
+		want := pj(o.Op, r.step(o))
+		out.Obs = append(out.Obs, got)
+		out.Ref = append(out.Ref, want)
+		if !sameObs(got, want, 5000) {
+			fail(i, "iso:"+c.Backend+":"+c.Name+":answer", fmt.Sprintf("%s scenario %q: call #%d %s(%s) answered %s, the reference map (immutable values) answers %s", c.Backend, c.Name, i, o.Op, o.K, canon(got), canon(want)))
+		}
+		for _, k := range kept {
+			if now := canon(pj(k.op, obs{"v", proj(k.val)})); now != k.snap {
+				fail(i, "iso:"+c.Backend+":"+c.Name+":retained", fmt.Sprintf("%s scenario %q: the answer %s returned by call #%d %s turned into %s after call #%d %s(%s): an answer already returned changed", c.Backend, c.Name, k.snap, k.at, k.op, now, i, o.Op, o.K))
+				break
+			}
+		}
+	}
+	// the answers as they look at the END of the history (what the correspondence compares as well)
+	out.ObsEnd = append([]obs(nil), out.Obs...)
+	for _, k := range kept {
+		now := pj(k.op, obs{"v", proj(k.val)})
+		if c.Ops[k.at].Op == "copylist" {
+			cp := append(obs(nil), out.ObsEnd[k.at]...)
+			cp[1] = now
+			out.ObsEnd[k.at] = cp
+		} else {
+			out.ObsEnd[k.at] = now
+		}
+	}
+	return out
+}
+
 func runCase(raw []byte) *caseOut {
 	var c caseIn
 	dec := json.NewDecoder(bytes.NewReader(raw))
@@ -1317,6 +1570,8 @@ func runCase(raw []byte) *caseOut {
 		return runSweep(c)
 	case "upgrade":
 		return runUpgrade(c)
+	case "iso":
+		return runIso(c)
 	}
 	panic("unknown mode " + c.Mode)
 }
